@@ -76,6 +76,28 @@ fn snap(rng: &mut Rng, n: &mut NodeSpec, depth: usize) {
     }
 }
 
+/// Near-half mode (on top of snap mode): some nodes get a margin / size a tiny dyadic distance (2^-10 .. 2^-13 px) off a half
+/// pixel, so that absolute edges lie just beside -- not on -- a half pixel, well outside the f32 accumulation error of
+/// the premise but inside any coarser re-quantisation of the running sums.
+fn near_half_perturb(rng: &mut Rng, n: &mut NodeSpec, depth: usize) {
+    let v = |rng: &mut Rng, max: u64| {
+        let delta = [1.0 / 1024.0, 1.0 / 2048.0, 1.0 / 4096.0, 1.0 / 8192.0][rng.below(4) as usize];
+        let sign = if rng.chance(1, 2) { -1.0 } else { 1.0 };
+        int_len(rng, max) + 0.5 + sign * delta
+    };
+    if depth > 0 && rng.chance(1, 3) {
+        match rng.below(4) {
+            0 => n.style.margin.left = LengthPercentageAuto::length(v(rng, 20)),
+            1 => n.style.margin.top = LengthPercentageAuto::length(v(rng, 20)),
+            2 => n.style.size.width = Dimension::length(v(rng, 200)),
+            _ => n.style.size.height = Dimension::length(v(rng, 100)),
+        }
+    }
+    for c in n.children.iter_mut() {
+        near_half_perturb(rng, c, depth + 1);
+    }
+}
+
 pub struct Case {
     pub spec: NodeSpec,
     pub avail: Size<AvailableSpace>,
@@ -92,6 +114,9 @@ pub fn case(seed: u64, idx: u64) -> Case {
     let avail = avail(&mut rng, &cfg);
     if idx % 3 == 1 {
         snap(&mut rng, &mut spec, 0);
+        if idx % 6 == 1 {
+            near_half_perturb(&mut rng, &mut spec, 0);
+        }
     }
     // history: mostly a single compute_layout with the default flag; every fifth case a random sequence
     let mut history = vec![OP_COMPUTE];
@@ -162,6 +187,15 @@ pub fn case_lines(c: &Case) -> Option<(String, String)> {
 
 fn is_int(x: f32) -> bool {
     x.is_finite() && x.fract() == 0.0
+}
+
+/// `x` (an exact f64 sum) is so close to a half pixel that the implementation's f32 running sums -- exact on the integral
+/// ancestors, then one rounding for the node's own offset and one for its size: at most an ulp of the larger of the
+/// two edges, `scale` -- may land on the other side: 4 ulps of margin.
+fn near_half_at(x: f64, scale: f64) -> bool {
+    let margin = 4.0 * f32::EPSILON as f64 * scale.abs().max(1.0);
+    let f = (x - x.floor() - 0.5).abs();
+    f <= margin
 }
 
 fn near_half(x: f64) -> bool {
@@ -301,11 +335,10 @@ pub fn oracle_case(seed: u64, idx: u64, st: &mut Stats, verbose: bool) -> Result
         }
         // (4) edges: under integral ancestors and off half pixels, rounded absolute edges = round(unrounded absolute edges)
         let edges_ok = |i: usize| -> bool {
-            anc_int[i]
-                && !near_half(ax[i])
-                && !near_half(ay[i])
-                && !near_half(ax[i] + u[i].size.width as f64)
-                && !near_half(ay[i] + u[i].size.height as f64)
+            let (l, rt) = (ax[i], ax[i] + u[i].size.width as f64);
+            let (tp, bt) = (ay[i], ay[i] + u[i].size.height as f64);
+            let (sx, sy) = (l.abs().max(rt.abs()), tp.abs().max(bt.abs()));
+            anc_int[i] && !near_half_at(l, sx) && !near_half_at(rt, sx) && !near_half_at(tp, sy) && !near_half_at(bt, sy)
         };
         for i in 0..n {
             if !edges_ok(i) {
